@@ -159,6 +159,14 @@ func execSweep(line string) hx.Result {
 	var stream []int
 	maxStack := 0
 	verify := func(k int, ld *search.GraphIterator) bool {
+		// the saved projection (N, A, M, First, G, Choices, CurrentPath) of the loaded iterator is
+		// that of the original (modes 0, 1, 3: the original still stands at position k)
+		if wmode != 2 {
+			if a, b := dumpProj(search.VerifDump(orig)), dumpProj(search.VerifDump(ld)); a != b {
+				fail("C04:projection", "saved at position %d: the loaded iterator holds [%s], the original [%s]", k, b, a)
+				return false
+			}
+		}
 		for i := 0; i < cont; i++ {
 			if !check("the iterator loaded from the save", k, k+i, ld.Next(), ld) {
 				return false
@@ -206,7 +214,7 @@ func execSweep(line string) hx.Result {
 	}
 	if wmode == 2 && good {
 		// all saves of the sweep read back one after the other from one reader
-		pre, post := gx.PruneFuncs(c.pred, c.placement, nil)
+		pre, post := pruneFuncs(c.pred, c.placement)
 		r := bytes.NewReader(append([]byte(nil), one.Bytes()...))
 		for _, k := range stream {
 			if !verify(k, search.Load(r, pre, post)) {
@@ -399,6 +407,28 @@ func genSweeps(g *hx.Gen) {
 			}
 		}
 	}
+	// n beyond the reach of the unrestricted search, with strongly pruning hereditary predicates:
+	// every position, every n = 12..24 (so len(Edges) = n(n-1)/2 takes every residue modulo 8 and
+	// n crosses 16), as preprune, as prune and as both, m = 1, 2
+	for n := 12; n <= g.Pick(24, 26); n++ {
+		for _, pred := range []string{"maxdeg1", "edges2", "cluster"} {
+			if pred == "cluster" && n > g.Pick(17, 19) {
+				continue
+			}
+			for _, pl := range []string{"pre", "post", "both"} {
+				if pl == "both" && pred != "maxdeg1" {
+					continue
+				}
+				for _, am := range [][2]int{{0, 1}, {0, 2}, {1, 2}} {
+					if pred == "cluster" && n > 15 && (am[1] == 2 || pl == "post") && !g.Thorough() {
+						continue
+					}
+					whole(config{n, am[0], am[1], pred, pl}, 60)
+				}
+			}
+		}
+	}
+	g.Exhaustive("every save position of the searches pruned to matchings / at most two edges (n = 12..24) and to disjoint unions of cliques (n = 12..17), m <= 2")
 	preds8 := []string{"trifree"}
 	if g.Thorough() {
 		preds8 = gx.Preds
@@ -475,7 +505,7 @@ func execUsage(line string) hx.Result {
 		}
 	}
 	funcs := func(cc config) (pre, post func(*graph.DenseGraph) bool) {
-		p0, q0 := gx.PruneFuncs(cc.pred, cc.placement, nil)
+		p0, q0 := pruneFuncs(cc.pred, cc.placement)
 		if !nested {
 			return p0, q0
 		}
